@@ -886,6 +886,12 @@ let rec nth n0 l default =
             | [] -> default
             | _ :: t -> nth m t default)
 
+(** val map : ('a1 -> 'a2) -> 'a1 list -> 'a2 list **)
+
+let rec map f = function
+| [] -> []
+| a :: t -> (f a) :: (map f t)
+
 (** val fold_left : ('a1 -> 'a2 -> 'a1) -> 'a2 list -> 'a1 -> 'a1 **)
 
 let rec fold_left f l a0 =
@@ -1120,6 +1126,17 @@ let negi64 a =
   s64 (Z.opp a)
 
 type bytes = z list
+
+(** val is_byte : z -> bool **)
+
+let is_byte b =
+  (&&) (Z.leb Z0 b)
+    (Z.ltb b (Zpos (XO (XO (XO (XO (XO (XO (XO (XO XH))))))))))
+
+(** val wfb : bytes -> bool **)
+
+let wfb bs =
+  forallb is_byte bs
 
 (** val len : 'a1 list -> z **)
 
@@ -5953,7 +5970,7 @@ let rec encode c b ov flags =
           then if Z.ltb (len b) size1
                then ret Z0 (Some Proto_ErrShortBuffer) b
                else rbind (copy_at b Z0 s) (fun pat ->
-                      let (_, b0) = pat in ret (len b0) None b0)
+                      let (_, b0) = pat in ret size1 None b0)
           else let vlen = proto_sizeOfVarlen size1 in
                if Z.ltb (len b) vlen
                then ret Z0 (Some Proto_ErrShortBuffer) b
@@ -6570,3 +6587,262 @@ let unmarshal fuel t b old =
          (match err with
           | Some _ -> Ok None
           | None -> if Z.ltb n0 (len b) then Ok None else Ok (Some v)))
+
+(** val elem_ok : gty -> bool **)
+
+let rec elem_ok = function
+| TPtr t' -> elem_ok t'
+| TStruct fs ->
+  let rec go = function
+  | [] -> true
+  | g :: r ->
+    let GField (_, _, ft) = g in
+    (&&)
+      (match ft with
+       | TSlice et -> elem_ok et
+       | TMap (kt, vt) ->
+         (&&)
+           (match kt with
+            | TBool -> true
+            | TInt -> true
+            | TInt32 -> true
+            | TInt64 -> true
+            | TUint -> true
+            | TUint32 -> true
+            | TUint64 -> true
+            | TString -> true
+            | _ -> false) (elem_ok vt)
+       | _ -> elem_ok ft) (go r)
+  in go fs
+| TSlice _ -> false
+| TMap (_, _) -> false
+| _ -> true
+
+(** val type_ok : gty -> bool **)
+
+let type_ok =
+  elem_ok
+
+(** val distinct : z list -> bool **)
+
+let rec distinct = function
+| [] -> true
+| x :: r -> (&&) (negb (existsb (Z.eqb x) r)) (distinct r)
+
+(** val numbers_ok : codec -> bool **)
+
+let rec numbers_ok = function
+| CPtr (_, c') -> numbers_ok c'
+| CStruct (_, fs) ->
+  (&&) (distinct (map sf_number fs))
+    (let rec go = function
+     | [] -> true
+     | s :: r ->
+       let SField (n0, _, _, _, c') = s in
+       (&&)
+         ((&&)
+           ((&&) (Z.leb (Zpos XH) n0)
+             (Z.ltb n0 (Z.pow (Zpos (XO XH)) (Zpos (XO (XO (XO (XO XH))))))))
+           (numbers_ok c')) (go r)
+     in go fs)
+| CSlice (n0, _, _, _, c') ->
+  (&&)
+    ((&&) (Z.leb (Zpos XH) n0)
+      (Z.ltb n0 (Z.pow (Zpos (XO XH)) (Zpos (XO (XO (XO (XO XH))))))))
+    (numbers_ok c')
+| CMap (n0, _, _, _, _, k, v) ->
+  (&&)
+    ((&&)
+      ((&&) (Z.leb (Zpos XH) n0)
+        (Z.ltb n0 (Z.pow (Zpos (XO XH)) (Zpos (XO (XO (XO (XO XH))))))))
+      (numbers_ok k)) (numbers_ok v)
+| CUnsupported -> false
+| _ -> true
+
+(** val lim : z **)
+
+let lim =
+  Z.pow (Zpos (XO XH)) (Zpos (XI (XI (XI (XI XH)))))
+
+(** val wf_val : gty -> val0 -> bool **)
+
+let rec wf_val t v =
+  match t with
+  | TBool -> (match v with
+              | VBool _ -> true
+              | _ -> false)
+  | TInt ->
+    (match v with
+     | VInt z0 ->
+       (&&)
+         (Z.leb
+           (Z.opp (Z.pow (Zpos (XO XH)) (Zpos (XI (XI (XI (XI (XI XH))))))))
+           z0)
+         (Z.ltb z0 (Z.pow (Zpos (XO XH)) (Zpos (XI (XI (XI (XI (XI XH))))))))
+     | _ -> false)
+  | TInt32 ->
+    (match v with
+     | VInt z0 ->
+       (&&)
+         (Z.leb (Z.opp (Z.pow (Zpos (XO XH)) (Zpos (XI (XI (XI (XI XH)))))))
+           z0) (Z.ltb z0 (Z.pow (Zpos (XO XH)) (Zpos (XI (XI (XI (XI XH)))))))
+     | _ -> false)
+  | TInt64 ->
+    (match v with
+     | VInt z0 ->
+       (&&)
+         (Z.leb
+           (Z.opp (Z.pow (Zpos (XO XH)) (Zpos (XI (XI (XI (XI (XI XH))))))))
+           z0)
+         (Z.ltb z0 (Z.pow (Zpos (XO XH)) (Zpos (XI (XI (XI (XI (XI XH))))))))
+     | _ -> false)
+  | TUint32 ->
+    (match v with
+     | VInt z0 ->
+       (&&) (Z.leb Z0 z0)
+         (Z.ltb z0 (Z.pow (Zpos (XO XH)) (Zpos (XO (XO (XO (XO (XO XH))))))))
+     | _ -> false)
+  | TFloat32 ->
+    (match v with
+     | VInt z0 ->
+       (&&) (Z.leb Z0 z0)
+         (Z.ltb z0 (Z.pow (Zpos (XO XH)) (Zpos (XO (XO (XO (XO (XO XH))))))))
+     | _ -> false)
+  | TString ->
+    (match v with
+     | VStr s -> (&&) (wfb s) (Z.ltb (len s) lim)
+     | _ -> false)
+  | TBytes ->
+    (match v with
+     | VBytes (nn, s) ->
+       (&&) ((&&) (wfb s) (Z.ltb (len s) lim)) ((||) nn (Z.eqb (len s) Z0))
+     | _ -> false)
+  | TByteArray n0 ->
+    (match v with
+     | VArr s ->
+       (&&) ((&&) (wfb s) (Z.eqb (len s) (Z.of_nat n0))) (Z.ltb (len s) lim)
+     | _ -> false)
+  | TPtr t' ->
+    (match v with
+     | VPtr o -> (match o with
+                  | Some x -> wf_val t' x
+                  | None -> true)
+     | _ -> false)
+  | TStruct fs ->
+    (match v with
+     | VStruct vs ->
+       let rec go fs0 vs0 =
+         match fs0 with
+         | [] -> (match vs0 with
+                  | [] -> true
+                  | _ :: _ -> false)
+         | g :: fr ->
+           let GField (_, _, ft) = g in
+           (match vs0 with
+            | [] -> false
+            | x :: vr -> (&&) (wf_val ft x) (go fr vr))
+       in go fs vs
+     | _ -> false)
+  | TSlice et ->
+    (match v with
+     | VSlice es ->
+       (&&) (Z.ltb (len es) lim)
+         (let rec go = function
+          | [] -> true
+          | x :: r -> (&&) (wf_val et x) (go r)
+          in go es)
+     | _ -> false)
+  | TMap (kt, vt) ->
+    (match v with
+     | VMap (nn, es) ->
+       (&&) ((&&) (Z.ltb (len es) lim) ((||) nn (Z.eqb (len es) Z0)))
+         (let rec go = function
+          | [] -> true
+          | p :: r ->
+            let (k, x) = p in (&&) ((&&) (wf_val kt k) (wf_val vt x)) (go r)
+          in go es)
+     | _ -> false)
+  | TRawMessage ->
+    (match v with
+     | VRaw (nn, s) ->
+       (&&) ((&&) (wfb s) (Z.ltb (len s) lim)) ((||) nn (Z.eqb (len s) Z0))
+     | _ -> false)
+  | _ ->
+    (match v with
+     | VInt z0 ->
+       (&&) (Z.leb Z0 z0)
+         (Z.ltb z0
+           (Z.pow (Zpos (XO XH)) (Zpos (XO (XO (XO (XO (XO (XO XH)))))))))
+     | _ -> false)
+
+(** val norm : val0 -> val0 **)
+
+let rec norm v = match v with
+| VBytes (_, s) -> VBytes (true, s)
+| VPtr o -> (match o with
+             | Some x -> VPtr (Some (norm x))
+             | None -> v)
+| VStruct vs -> VStruct (map norm vs)
+| VSlice es -> VSlice (map norm es)
+| VMap (_, es) ->
+  VMap (true, (map (fun kv -> ((norm (fst kv)), (norm (snd kv)))) es))
+| VRaw (_, s) -> VRaw (true, s)
+| _ -> v
+
+(** val empty_enc : val0 -> bool **)
+
+let rec empty_enc = function
+| VPtr o ->
+  (match o with
+   | Some x ->
+     (match x with
+      | VPtr _ -> empty_enc x
+      | VStruct _ -> empty_enc x
+      | _ -> false)
+   | None -> true)
+| VStruct vs -> forallb empty_enc vs
+| VSlice es -> (match es with
+                | [] -> true
+                | _ :: _ -> false)
+| _ -> false
+
+(** val representable : val0 -> bool **)
+
+let rec representable = function
+| VPtr o ->
+  (match o with
+   | Some x -> (&&) (negb (empty_enc x)) (representable x)
+   | None -> true)
+| VStruct vs -> forallb representable vs
+| VSlice es ->
+  forallb (fun e ->
+    (&&) (representable e)
+      (negb (match e with
+             | VPtr _ -> empty_enc e
+             | _ -> false))) es
+| VMap (_, es) ->
+  forallb (fun kv ->
+    (&&) ((&&) (representable (fst kv)) (representable (snd kv)))
+      (negb (match snd kv with
+             | VPtr _ -> empty_enc (snd kv)
+             | _ -> false))) es
+| _ -> true
+
+(** val keys_distinct : val0 -> bool **)
+
+let rec keys_distinct = function
+| VPtr o -> (match o with
+             | Some x -> keys_distinct x
+             | None -> true)
+| VStruct vs -> forallb keys_distinct vs
+| VSlice es -> forallb keys_distinct es
+| VMap (_, es) ->
+  let rec go = function
+  | [] -> true
+  | p :: r ->
+    let (k, x) = p in
+    (&&)
+      ((&&) (negb (existsb (fun kv -> val_eqb (fst kv) k) r))
+        (keys_distinct x)) (go r)
+  in go es
+| _ -> true
